@@ -147,9 +147,11 @@ def rot_route(route, q, v):
     if route == "q_rot":
         return np.asarray(ori.q_rot(q.copy(), v.copy()), dtype=float), True
     if route == "sandwich":
+        # the vector part of q v q*: the pure quaternion (0, v) is not a rotation, so the products are formed by the free function
+        # (the Quaternion class refuses vectors whose squared norm underflows)
         qq = Q(q)
-        t = Q(qq.product(np.array([0.0, v[0], v[1], v[2]])), versor=False)
-        return np.asarray(t.product(qq.conjugate), dtype=float)[1:], False
+        t = ori.q_prod(np.asarray(qq, dtype=float).copy(), np.array([0.0, v[0], v[1], v[2]]))
+        return np.asarray(ori.q_prod(np.asarray(t, dtype=float), np.asarray(qq.conjugate, dtype=float)), dtype=float)[1:], False
     if route == "Quaternion[S].copy.rotate":
         return np.asarray(QS(q).copy().rotate(v.copy()), dtype=float), False
     if route == "Quaternion[rewritten].rotate":
